@@ -256,6 +256,13 @@ func (ex *Exec) targetKeys(env *Env, mt ModTarget) (keys []string, ref *Term, er
 // axioms and lemmas
 
 func (eng *Engine) compileClosed(ax *Axiom, goal bool) (*Term, error) {
+	t, _, err := eng.compileClosedEx(ax, goal)
+	return t, err
+}
+
+// compileClosedEx also returns the scratch executor, whose assumptions (facts about the results of Go calls made
+// inside the statement, e.g. callee postconditions) belong to the lemma's hypotheses.
+func (eng *Engine) compileClosedEx(ax *Axiom, goal bool) (*Term, *Exec, error) {
 	ex := newExec(eng, nil, nil)
 	ex.inSpec = 1
 	ex.reveal = map[string]bool{}
@@ -269,12 +276,12 @@ func (eng *Engine) compileClosed(ax *Axiom, goal bool) (*Term, error) {
 	env := &Env{ex: ex, vars: map[string]Value{}, st: st, old: st, pkg: eng.pkgByName[ax.Pkg]}
 	t, err := env.boolExpr(ax.E, goal)
 	if err != nil || goal {
-		return t, err
+		return t, ex, err
 	}
 	// used as a hypothesis the statement holds for every heap: generalise over the symbolic heap arrays it mentions
 	memo := st.heap.base.memo
 	if len(memo) == 0 {
-		return t, nil
+		return t, ex, nil
 	}
 	var keys []string
 	for k := range memo {
@@ -291,14 +298,14 @@ func (eng *Engine) compileClosed(ax *Axiom, goal bool) (*Term, error) {
 	}
 	body := Subst(t, sub)
 	if body == t {
-		return t, nil
+		return t, ex, nil
 	}
 	if body.Op == "forall" {
 		all := append(append([]*Term{}, bound...), body.Bound...)
 		inner := body.Args[0]
-		return Forall(all, inner, choosePatterns(all, inner)), nil
+		return Forall(all, inner, choosePatterns(all, inner)), ex, nil
 	}
-	return Forall(bound, body, choosePatterns(bound, body)), nil
+	return Forall(bound, body, choosePatterns(bound, body)), ex, nil
 }
 
 type axiomTerm struct {
@@ -397,7 +404,7 @@ func builtinSym(s string) bool {
 
 func (eng *Engine) lemmaObligation(name string) (*Obligation, error) {
 	ax := eng.contracts.Axioms[name]
-	g, err := eng.compileClosed(ax, true)
+	g, ex, err := eng.compileClosedEx(ax, true)
 	if err != nil {
 		return nil, err
 	}
@@ -405,7 +412,7 @@ func (eng *Engine) lemmaObligation(name string) (*Obligation, error) {
 	for _, u := range ax.Uses {
 		uses[u] = true
 	}
-	o := &Obligation{Name: "lemma#" + name, Func: "lemma " + name, Kind: "lemma", PC: True, Goal: g, Text: ax.Text}
+	o := &Obligation{Name: "lemma#" + name, Func: "lemma " + name, Kind: "lemma", PC: True, Goal: g, Text: ax.Text, exec: ex, NAssume: len(ex.assumes)}
 	hyps, _ := eng.relevantAxioms([]*Term{g}, name, uses)
 	o.Extra = hyps
 	o.Pos = fmt.Sprintf("%s:%d", ax.File, ax.Line)
